@@ -16,6 +16,7 @@ mod macops;
 mod asyncdev;
 mod nbdev;
 mod phyops;
+mod loraops;
 
 fn dispatch(op: &str, a: &[&str]) -> String {
     match op {
@@ -46,6 +47,14 @@ fn main() {
         }
         if !toks.is_empty() && toks[0] == "adev" {
             let r = catch_unwind(AssertUnwindSafe(|| asyncdev::run_history(&line)));
+            match r {
+                Ok(s) => writeln!(out, "{s}").unwrap(),
+                Err(_) => writeln!(out, "PANIC").unwrap(),
+            }
+            continue;
+        }
+        if !toks.is_empty() && (toks[0] == "lora" || toks[0] == "lwr") {
+            let r = catch_unwind(AssertUnwindSafe(|| loraops::run_line(&line)));
             match r {
                 Ok(s) => writeln!(out, "{s}").unwrap(),
                 Err(_) => writeln!(out, "PANIC").unwrap(),
